@@ -1,17 +1,24 @@
 #!/usr/bin/env python3
-"""Rewrite builder-branch commit ids in findings.d/*.json, manifest.d/*.json and notes/*.md to the ids the same
-commits have in /repo main (they were cherry-picked with -x, so main's messages name the original id)."""
+"""Rewrite builder-branch commit ids in findings.d/*.json, manifest.d/*.json and notes/*.md to the ids the same commits have
+in /repo main (they were cherry-picked: matched by `cherry picked from commit` lines where present, else by identical subject)."""
 import glob, json, os, re, subprocess
-log = subprocess.run("git -C /repo log --format='%H%x00%s%x00%b%x01'", shell=True, capture_output=True, text=True).stdout.split("\x01")
+def sh(c): return subprocess.run(c, shell=True, capture_output=True, text=True).stdout
 m = {}
-for e in log:
+for e in sh("git -C /repo log main --format='%H%x00%s%x00%b%x01'").split("\x01"):
     e = e.strip("\n")
-    if not e:
-        continue
+    if not e: continue
     h, s, b = e.split("\x00")
     for orig in re.findall(r"cherry picked from commit ([0-9a-f]{40})", b):
         m[orig[:7]] = h[:7]
-# the split-off datetime hunk of e1e1d2a
+subj2main = {}
+for l in sh("git -C /repo log main --format='%h%x00%s'").strip().split("\n"):
+    h, s = l.split("\x00"); subj2main.setdefault(s, h)
+for b in sh("git -C /repo branch --format='%(refname:short)'").split():
+    if b == "main": continue
+    for l in sh("git -C /repo log main..%s --format='%%h%%x00%%s'" % b).strip().split("\n"):
+        if not l: continue
+        h, s = l.split("\x00")
+        if s in subj2main: m[h] = subj2main[s]
 here = os.path.join(os.path.dirname(os.path.abspath(__file__)), "..")
 n = 0
 for f in glob.glob(os.path.join(here, "findings.d", "*.json")) + glob.glob(os.path.join(here, "manifest.d", "C*.json")) + glob.glob(os.path.join(here, "notes", "*.md")):
